@@ -366,8 +366,24 @@ fn kv_mode(inputs: &[Value], seed: u64, si: usize, sn: usize, out: &mut TraceOut
         }
         cuts.sort();
         cuts.dedup();
-        for c in cuts {
-            plans.push((format!("cut@{c}"), vec![all[..c].to_vec(), all[c..].to_vec()], false));
+        for c in &cuts {
+            plans.push((format!("cut@{c}"), vec![all[..*c].to_vec(), all[*c..].to_vec()], false));
+        }
+        // the client reads the replies to the requests that are COMPLETE in the first segment before it
+        // sends the rest of the request the cut fell into
+        let mut wait_plans: Vec<(String, Vec<Vec<u8>>, usize)> = vec![];
+        for c in &cuts {
+            let mut done = 0usize;
+            let mut acc = 0usize;
+            for w in &wire {
+                acc += w.len();
+                if acc <= *c {
+                    done += 1;
+                }
+            }
+            if done >= 1 && done < wire.len() {
+                wait_plans.push((format!("cut-wait@{c}"), vec![all[..*c].to_vec(), all[*c..].to_vec()], done));
+            }
         }
         for (how, segs, interleave) in plans {
             pend.set(&json!({"ev": "kv", "reqs": inp["reqs"], "how": how, "phase": "run"}));
@@ -419,8 +435,123 @@ fn kv_mode(inputs: &[Value], seed: u64, si: usize, sn: usize, out: &mut TraceOut
                              "recv": bj(&recv), "ending": ending, "store": store}));
             n += 1;
         }
+        for (how, segs, first_replies) in wait_plans {
+            pend.set(&json!({"ev": "kv", "reqs": inp["reqs"], "how": how, "phase": "run"}));
+            let sc = Scratch::new("net");
+            let kv = open_real_store(sc.path(), 120);
+            let h = kv.get_handle();
+            let _ = take_events();
+            let srv = start_server(h.clone(), 8);
+            let mut recv: Vec<u8> = vec![];
+            let mut ending = "ok";
+            if let Some(mut s) = connect(srv.addr) {
+                if s.write_all(&segs[0]).is_err() {
+                    ending = "send-failed";
+                } else {
+                    let (b, e) = read_reply_bytes(&mut s, first_replies, Duration::from_secs(3));
+                    recv.extend(b);
+                    if e != "ok" {
+                        ending = e;
+                    } else if s.write_all(&segs[1]).is_err() {
+                        ending = "send-failed";
+                    } else {
+                        let mut rest = vec![];
+                        let (b, e) = read_reply_bytes_from(&mut s, &recv, reqs.len(), Duration::from_secs(3), &mut rest);
+                        let _ = b;
+                        recv.extend(rest);
+                        ending = e;
+                    }
+                }
+                let (extra, _) = read_some(&mut s, 1, Duration::from_millis(20));
+                recv.extend(extra);
+            } else {
+                ending = "connect-failed";
+            }
+            let store = store_contents(&h, &keys);
+            srv.stop();
+            drop(kv);
+            pend.clear();
+            out.emit(&json!({"ev": "kv", "reqs": inp["reqs"], "how": how, "nsegs": 2, "sent_segments": 2,
+                             "recv": bj(&recv), "ending": ending, "store": store}));
+            n += 1;
+        }
+    }
+    // deep pipelining of large replies without reading: the replies must come out byte-exact under
+    // back-pressure (too large for the trace: the driver's independent splitter counts exact replies)
+    if si == 0 {
+        for (vlen, depth) in [(8191usize, 600usize), (8192, 600), (65536, 200)] {
+            pend.set(&json!({"ev": "kvbulk", "vlen": vlen, "depth": depth, "phase": "run"}));
+            let sc = Scratch::new("net");
+            let kv = open_real_store(sc.path(), 1_000_000);
+            let h = kv.get_handle();
+            let srv = start_server(h.clone(), 8);
+            let value: Vec<u8> = (0..vlen).map(|i| if i % 101 == 0 { b'\r' } else if i % 103 == 0 { b'\n' } else { b'a' + (i % 26) as u8 }).collect();
+            let mut exact = 0usize;
+            let mut ending = "ok";
+            let mut got_len = 0usize;
+            if let Some(mut s) = connect(srv.addr) {
+                let _ = s.write_all(&cmd(&[b"SET", b"big", &value]));
+                let (b, _) = read_reply_bytes(&mut s, 1, Duration::from_secs(5));
+                if b != b"+OK\r\n" {
+                    ending = "set-failed";
+                }
+                // writer thread: all GETs without waiting; reader starts only after a pause
+                let mut w = s.try_clone().unwrap();
+                let req = cmd(&[b"GET", b"big"]);
+                let wt = std::thread::spawn(move || {
+                    for _ in 0..depth {
+                        if w.write_all(&req).is_err() {
+                            break;
+                        }
+                    }
+                });
+                std::thread::sleep(Duration::from_millis(300));
+                let expect = bulk(&value);
+                let total = expect.len() * depth;
+                let (b, e) = read_some(&mut s, total, Duration::from_secs(20));
+                let _ = wt.join();
+                got_len = b.len();
+                if e != "ok" {
+                    ending = e;
+                }
+                for i in 0..depth {
+                    let (a, z) = (i * expect.len(), (i + 1) * expect.len());
+                    if z <= b.len() && b[a..z] == expect[..] {
+                        exact += 1;
+                    }
+                }
+            } else {
+                ending = "connect-failed";
+            }
+            srv.stop();
+            drop(kv);
+            pend.clear();
+            out.emit(&json!({"ev": "kvbulk", "vlen": vlen, "depth": depth, "exact": exact, "received": got_len, "ending": ending}));
+            n += 1;
+        }
     }
     n
+}
+
+/// continue reading until `count` replies are complete in `already ++ new`
+fn read_reply_bytes_from(s: &mut TcpStream, already: &[u8], count: usize, timeout: Duration, out: &mut Vec<u8>) -> (usize, &'static str) {
+    let deadline = Instant::now() + timeout;
+    let mut all = already.to_vec();
+    loop {
+        if count_replies(&all) >= count {
+            return (out.len(), "ok");
+        }
+        let left = deadline.saturating_duration_since(Instant::now());
+        if left.is_zero() {
+            return (out.len(), "timeout");
+        }
+        let (b, e) = read_some(s, 1, left);
+        all.extend_from_slice(&b);
+        out.extend(b);
+        if e != "ok" {
+            return (out.len(), e);
+        }
+    }
 }
 
 /// Read `count` complete RESP replies (simple/error/integer lines, bulk strings, null).
